@@ -95,6 +95,23 @@ impl Expr {
     pub fn new_negate(expr: Expr) -> Expr {
         Expr::new_unary(UnaryOpType::Negative, expr)
     }
+
+    /// True if the printed form of this expression, as a factor of a
+    /// product, begins with a `+` or `-` sign (`-a`, `-a^b`).
+    pub(crate) fn starts_with_sign(&self) -> bool {
+        match *self {
+            Expr::UnaryOp(UnaryOpExpr {
+                op: UnaryOpType::Positive | UnaryOpType::Negative,
+                ..
+            }) => true,
+            Expr::BinOp(BinOpExpr {
+                op: BinOpType::Pow,
+                ref left,
+                ..
+            }) => left.starts_with_sign(),
+            _ => false,
+        }
+    }
 }
 
 #[derive(PartialOrd, Ord, PartialEq, Eq, Clone, Copy)]
@@ -205,13 +222,7 @@ impl fmt::Display for Expr {
                     for expr in exprs.iter().skip(1) {
                         write!(fmt, " ")?;
                         // `a -b` would read as a subtraction.
-                        let signed = matches!(
-                            *expr,
-                            Expr::UnaryOp(UnaryOpExpr {
-                                op: UnaryOpType::Positive | UnaryOpType::Negative,
-                                ..
-                            })
-                        );
+                        let signed = expr.starts_with_sign();
                         if signed {
                             write!(fmt, "(")?;
                         }
